@@ -16,13 +16,17 @@ package sim
 import (
 	"bytes"
 	"encoding/binary"
+	"encoding/hex"
 	"encoding/json"
 	"fmt"
 	"math/rand/v2"
 	"net/http/httptest"
 	"os"
 	"path/filepath"
+	"runtime"
+	"strings"
 	"sync"
+	"sync/atomic"
 	"testing"
 	"testing/synctest"
 	"time"
@@ -45,7 +49,42 @@ func RaceMain(t *testing.T) {
 	defer os.RemoveAll(scratch)
 	installHooks()
 	flavourInit()
+	// Real-time watchdog: in this mode goroutines run freely, so a lock-order
+	// inversion or a leaked lock shows as goroutines blocked on a mutex forever.
+	var raceProgress atomic.Int64
+	go func() {
+		last, since := int64(-1), time.Now()
+		for {
+			time.Sleep(time.Second)
+			if p := raceProgress.Load(); p != last {
+				last, since = p, time.Now()
+				continue
+			}
+			if time.Since(since) < time.Duration(envInt("VERIF_RACE_WATCHDOG_S", 40))*time.Second {
+				continue
+			}
+			buf := make([]byte, 8<<20)
+			n := runtime.Stack(buf, true)
+			site := ""
+			blocked := 0
+			for _, g := range strings.Split(string(buf[:n]), "\n\n") {
+				if (strings.Contains(g, "sync.(*Mutex).Lock") || strings.Contains(g, "sync.(*RWMutex)")) && strings.Contains(g, "gca-backend/") {
+					blocked++
+					if site == "" {
+						site = TopRepoFunc(g)
+					}
+				}
+			}
+			if blocked > 0 {
+				fmt.Printf("RACE-MODE-VIOLATION %s.deadlock@%s %d goroutines of the server have been blocked in sync.Mutex.Lock for 40 s of real time in the free-running mode (lock-order inversion or a lock that is never released)\n", raceProp(), site, blocked)
+				os.Exit(3)
+			}
+			fmt.Printf("RACE-MODE-HANG no progress and no goroutine blocked on a mutex in repo code\n")
+			os.Exit(4)
+		}
+	}()
 	for run := from; run < from+runs; run++ {
+		raceProgress.Add(1)
 		dir := filepath.Join(scratch, fmt.Sprintf("run-%d", run))
 		os.MkdirAll(dir, 0755)
 		a, b := seedFor(seed, run, "C13.race")
@@ -181,7 +220,7 @@ func raceRun(t *testing.T, rng *rand.Rand, dir string) {
 					if gr.IntN(4) == 0 && !strong {
 						glow.SetCurrentTimeslot(glow.CurrentTimeslot() + uint32(1+gr.IntN(3300)))
 					}
-					get("/api/v1/recent-reports?publicKey=00")
+					get("/api/v1/recent-reports?publicKey=" + hex.EncodeToString(d.Key.Pub[:]))
 				}
 			}
 		}()
@@ -221,6 +260,13 @@ func raceRun(t *testing.T, rng *rand.Rand, dir string) {
 	s.Close()
 	cur = nil
 	time.Sleep(4 * time.Second)
+}
+
+func raceProp() string {
+	if f := os.Getenv("VERIF_RACE_FOCUS"); f != "" {
+		return f
+	}
+	return "C13"
 }
 
 // raceRunC07 is the free-running part of C07: 4-24 registration requests,
